@@ -644,7 +644,8 @@ int main(int argc, char** argv) {
     AddSuffix(TargName, STRINGSIZE, BinSuffix);
 
     MaxGran = 1;
-    if ((StartAuto) || (StopAuto)) {
+    /* the measuring pass also finds MaxGran, which is needed with an explicit range, too */
+    {
         if (StartAuto) {
             StartAdr = 0xfffffffful;
         }
@@ -666,7 +667,7 @@ int main(int argc, char** argv) {
             ChkIO(OutName);
             exit(1);
         }
-        if (!QuietMode) {
+        if ((!QuietMode) && ((StartAuto) || (StopAuto))) {
             printf("%s: 0x%08lX-", getmessage(Num_InfoMessDeducedRange),
                    LoDWord(StartAdr));
             printf("0x%08lX\n", LoDWord(StopAdr));
